@@ -576,6 +576,9 @@ func (r *Run) opAuthorizePAR(st Step) {
 		return
 	}
 	g.ViaPAR = true
+	if pushedRedirect == "" && q.Get("redirect_uri") != "" {
+		g.Unspec = true // the pushed request relied on the single registered URI; a redirect_uri added in the query is not an override of a pushed value: unspecified
+	}
 	// authoritative: redirect target, state, scope, response type/mode are the pushed ones
 	if res.Redirect != nil && pushedRedirect != "" {
 		pu, _ := url.Parse(pushedRedirect)
